@@ -37,6 +37,7 @@ func TestVerifReplay(t *testing.T) {
 		"VerifC01Deep":             VerifC01Deep,
 		"VerifC01AnyStart":         VerifC01AnyStart,
 		"VerifC01Select":           VerifC01Select,
+		"VerifC01SignedChain":      VerifC01SignedChain,
 		"VerifC17AnyStart":         VerifC17AnyStart,
 		"VerifC01FrozenClaim":      VerifC01FrozenClaim,
 	})
